@@ -121,6 +121,14 @@ PROPS["C01"] = {
     "units": [{
         "pkg": "command",
         "tests": [T("TestC01Commands", {"checks": 60, "shards": 8, "env": {"C01_BUDGET": 3000}},
-                    {"checks": 500, "shards": 16, "env": {"C01_BUDGET": 20000}})],
+                    {"checks": 500, "shards": 16, "env": {"C01_BUDGET": 20000}}),
+                  T("TestC01AppScans", {"checks": 150, "shards": 2, "env": {"C01_BUDGET": 3000}},
+                    {"checks": 1500, "shards": 8, "env": {"C01_BUDGET": 20000}}),
+                  T("TestC01Generators", {"checks": 100, "shards": 4, "env": {"C01_MINBITS": 14, "C01_PRODUCT_LOG2": 19}},
+                    {"checks": 300, "shards": 16, "env": {"C01_MINBITS": 10, "C01_PRODUCT_LOG2": 23}}),
+                  {"name": "TestC01BigSubnet", "quick": {"skip": True}, "variant": "b8",
+                   "thorough": {"checks": 1, "env": {"C01_BIG_BITS": 8}, "timeout": 3000}},
+                  {"name": "TestC01BigSubnet", "quick": {"skip": True}, "variant": "b5",
+                   "thorough": {"checks": 1, "env": {"C01_BIG_BITS": 5}, "timeout": 3000}}],
     }],
 }
